@@ -176,7 +176,7 @@ CLAIMS = {
              'C12_one_track_per_mmsi, C12_rejected_unchanged (an update raises iff it is older than its track or, in ordered '
              'mode, older than some track; then the whole state is unchanged and nothing is emitted), C12_spec_most_recent, '
              'C12_spec_never_reported are proved in Coq for all finite histories of update / pop_track / cleanup / clock '
-             'advance / assignment of a new TTL / switch of an ordered tracker to unordered (the specification judges every '
+             'advance / assignment of a new TTL / switch of an ordered tracker to unordered / the public insert_or_update() (ordered mode: with non-decreasing timestamps on that route, trk_run_ok) (the specification judges every '
              'update by the mode and every expiry by the TTL in force), polymorphic in the attribute value type. ' + TIE,
         note=BASE_NOTE + 'time is an explicit argument of the model (the harness patches time.time and uses dyadic '
              'timestamps); the AISTrack attribute list and the attributes each message class carries are read by reflection '
@@ -189,7 +189,7 @@ CLAIMS = {
                   'defect + differential check under a controlled clock with raising subscribers',
         text='Over the general model (callbacks return or raise; pop_track swallows KeyError after deleting the track; every '
              'other exception escapes through insert/update/cleanup as in the Python; histories may assign a new TTL to '
-             'ttl_in_seconds and switch an ordered tracker to unordered): C13_expiry_exact (after every cleanup() or update() at '
+             'ttl_in_seconds, switch an ordered tracker to unordered and call the public insert_or_update() -- on an ordered tracker with timestamps that are not older than a track): C13_expiry_exact (after every cleanup() or update() at '
              'time now that RETURNS -- from every reachable state, for the TTL in force at that moment, both modes and every '
              'behaviour of the subscribers -- every remaining track is younger than the TTL and every track removed by expiry '
              'had reached it), C13_never_removes_fresh (every operation, also one left by an exception: only tracks that reached '
